@@ -1199,7 +1199,10 @@ def decode_frame(
             data_value[SZ_VALUE] = result
         elif msg_schema.get(SENSOR) == Sensor.PERCENTAGE:
             # NOTE: OT defines % as 0.0-100.0, but (this) ramses uses 0.0-1.0 elsewhere
-            data_value[SZ_VALUE] = int(result * 2) / 200  # seems precision of 1%
+            if 0.0 <= result <= 100.0:
+                data_value[SZ_VALUE] = int(result * 2) / 200  # seems precision of 1%
+            else:  # invalid data, c.f. OtbGateway._handle_3220()
+                data_value[SZ_VALUE] = None
         elif msg_schema.get(SENSOR) == Sensor.FLOW_RATE:
             data_value[SZ_VALUE] = int(result * 100) / 100
         elif msg_schema.get(SENSOR) == Sensor.PRESSURE:
